@@ -3,7 +3,7 @@
 worktree (VERIF_REPO) and record what the check printed in seeded/RESULTS.json.  usage: seedall.py [ID-k ...]"""
 import os, sys, json, subprocess, re, glob, time
 ROOT = os.path.dirname(os.path.dirname(os.path.abspath(__file__)))
-res_path = os.path.join(ROOT, "seeded", "RESULTS.json")
+res_path = os.environ.get("SEEDALL_OUT") or os.path.join(ROOT, "seeded", "RESULTS.json")   # SEEDALL_OUT: alternative result file (e.g. a sweep under another VERIF_SEED)
 # --shard=i/n: only properties whose number % n == i, results to seeded/RESULTS.shard<i>.json (merge with --merge)
 shard = next((a.split("=")[1] for a in sys.argv[1:] if a.startswith("--shard=")), None)
 if "--merge" in sys.argv:
@@ -14,7 +14,7 @@ if "--merge" in sys.argv:
     print("merged", len(res)); sys.exit(0)
 if shard:
     si, sn = map(int, shard.split("/"))
-    res_path = os.path.join(ROOT, "seeded", "RESULTS.shard%d.json" % si)
+    res_path = (os.environ.get("SEEDALL_OUT", os.path.join(ROOT, "seeded", "RESULTS")).replace(".json", "") + ".shard%d.json" % si)
 res = json.load(open(res_path)) if os.path.exists(res_path) else {}
 want = [a for a in sys.argv[1:] if not a.startswith("--")]
 only_new = "--new" in sys.argv
